@@ -1,72 +1,20 @@
 /-
   LiveInv: preservation by the simple main-thread transitions (those that write neither worker fields nor the queue).
 -/
-import XzVerif.Lemmas.MtDecLive
+import XzVerif.Lemmas.MtDecLive2a
 
 namespace XzVerif.MtDec
-
-/-- Frame: queue, workers and coder->thr unchanged. -/
-theorem LiveInv.frameThr {s s' : State} (h : LiveInv s) (eq : s'.queue = s.queue) (ew : s'.workers = s.workers)
-    (hfull : ∀ i, i < s.workers.length → (getW s i).hasOut = true → s'.thr ≠ some i → (getW s i).inFilled = (getW s i).inSize)
-    (hp4 : ∀ i, (s.pc = .init4 ∧ s.thr = some i) → (s'.pc = .init4 ∧ s'.thr = some i)) (hp45 : (s.pc = .init4 ∨ s.pc = .init5) → (s'.pc = .init4 ∨ s'.pc = .init5))
-    (h10 : s'.seq = .thrInit → (s'.pc = .init3 ∨ s'.pc = .init4 ∨ s'.pc = .init5) ∨ s'.thr = none)
-    (h11 : s'.seq = .thrInit → (blk s' s'.cur).kind = .thr ∨ s'.pc = .init4 ∨ s'.pc = .init5)
-    (h12 : s'.seq = .blockInit → (blk s' s'.cur).kind = .thr ∨ (blk s' s'.cur).kind = .direct)
-    (h13 : s'.seq = .thrRun → ∃ t, s'.thr = some t)
-    (h13a : s'.pc = .init5 → ∃ t, s'.thr = some t)
-    (h14 : (s'.pc = .init1 ∨ s'.pc = .init2 ∨ s'.pc = .rowOk .canStart true ∨ s'.pc = .rowDone .canStart OK true) →
-      s'.workers.length < s'.cfg.threadsMax ∨ s'.threadsFree ≠ []) : LiveInv s' := by
-  have eg : ∀ j, getW s' j = getW s j := fun j => by simp [getW, ew]
-  have eo : ∀ o i, Owner s' o i ↔ Owner s o i := fun o i => by simp [Owner, ew, eg]
-  refine ⟨?_, ?_, ?_, ?_, ?_, ?_, ?_, ?_, ?_, h10, h11, h12, h13, h13a, h14⟩
-  · intro o ho hf
-    obtain ⟨i, hi⟩ := h.own o (eq ▸ ho) hf
-    exact ⟨i, (eo o i).mpr hi⟩
-  · intro i hi ho hl
-    rw [ew] at hi; rw [eg] at ho hl ⊢
-    rcases h.run i hi ho hl with e | e
-    · exact Or.inl e
-    · exact Or.inr (hp4 i e)
-  · intro o ho w hw hf
-    exact (eo o w).mpr (h.wrk o (eq ▸ ho) w hw hf)
-  · intro hh t hq; rw [eq] at hq; exact h.tailW hh t hq
-  · intro hh t hq hf
-    rw [eq] at hq
-    rcases h.head hh t hq hf with ⟨a, b⟩ | ⟨a, b, c⟩
-    · exact Or.inl ⟨a, fun i hi => by rw [eg]; exact b i ((eo hh i).mp hi)⟩
-    · exact Or.inr ⟨a, hp45 b, c⟩
-  · intro i hi ho hl hpu o hoq hb
-    rw [ew] at hi; rw [eg] at ho hl hpu hb ⊢
-    exact h.pub i hi ho hl hpu o (eq ▸ hoq) hb
-  · intro i hi lim hpc
-    rw [ew] at hi; rw [eg] at hpc ⊢
-    exact h.snap i hi lim hpc
-  · intro i hi ho ht
-    rw [ew] at hi; rw [eg] at ho ⊢
-    exact hfull i hi ho ht
-  · intro i hi ho hb
-    rw [ew] at hi; rw [eg] at ho hb ⊢
-    exact h.pos i hi ho hb
-
-theorem LiveInv.frame {s s' : State} (h : LiveInv s) (eq : s'.queue = s.queue) (ew : s'.workers = s.workers)
-    (et : s'.thr = s.thr)
-    (hp4 : ∀ i, (s.pc = .init4 ∧ s.thr = some i) → (s'.pc = .init4 ∧ s'.thr = some i)) (hp45 : (s.pc = .init4 ∨ s.pc = .init5) → (s'.pc = .init4 ∨ s'.pc = .init5))
-    (h10 : s'.seq = .thrInit → (s'.pc = .init3 ∨ s'.pc = .init4 ∨ s'.pc = .init5) ∨ s'.thr = none)
-    (h11 : s'.seq = .thrInit → (blk s' s'.cur).kind = .thr ∨ s'.pc = .init4 ∨ s'.pc = .init5)
-    (h12 : s'.seq = .blockInit → (blk s' s'.cur).kind = .thr ∨ (blk s' s'.cur).kind = .direct)
-    (h13 : s'.seq = .thrRun → ∃ t, s'.thr = some t)
-    (h13a : s'.pc = .init5 → ∃ t, s'.thr = some t)
-    (h14 : (s'.pc = .init1 ∨ s'.pc = .init2 ∨ s'.pc = .rowOk .canStart true ∨ s'.pc = .rowDone .canStart OK true) →
-      s'.workers.length < s'.cfg.threadsMax ∨ s'.threadsFree ≠ []) : LiveInv s' :=
-  h.frameThr eq ew (fun i hi ho ht => h.full i hi ho (et ▸ ht)) hp4 hp45 h10 h11 h12 h13 h13a h14
 
 def Label.liveSimple : Label → Bool
   | .rowIter _ | .assign | .enablePartial | .stopOne | .endSet | .endJoin | .getThread | .startThr | .tell | .rowOk | .hdrGot | .blockInit => false
   | _ => true
 
-set_option maxHeartbeats 800000 in
-theorem LiveInv.mainSimple {s s' : State} {l : Label} (h : LiveInv s) (hI : Inv s) (hl : l.worker? = none)
-    (hsimple : l.liveSimple = true) (hs : step s l = some s') : LiveInv s' := by
+def Label.liveSimpleB1 : Label → Bool
+  | .rowDone | .memUpdate | .seqError => true
+  | _ => false
+
+theorem LiveInv.mainSimpleB1 {s s' : State} {l : Label} (h : LiveInv s) (hI : Inv s)
+    (hsimple : l.liveSimpleB1 = true) (hs : step s l = some s') : LiveInv s' := by
   have l10 := h.thr0
   have l11 := h.kindThr
   have l12 := h.kindInit
@@ -74,14 +22,92 @@ theorem LiveInv.mainSimple {s s' : State} {l : Label} (h : LiveInv s) (hI : Inv 
   have l14 := h.canGet
   have l13a := h.thr5
   obtain ⟨c1, c2, c3, c4, c5, c6, c6a, c6b, c7, c8, c9, c10⟩ := hI.2
-  cases l <;> simp only [Label.worker?, reduceCtorEq] at hl <;> simp only [Label.liveSimple, reduceCtorEq] at hsimple <;>
-    simp only [step] at hs
+  cases l <;> simp only [Label.liveSimpleB1, reduceCtorEq] at hsimple <;> simp only [step] at hs
   all_goals (repeat' split at hs)
   all_goals first | (cases hs; done) | skip
   all_goals (cases hs)
   all_goals (refine h.frame rfl rfl rfl ?_ ?_ ?_ ?_ ?_ ?_ ?_ ?_ <;> first
     | (intros; simp_all [rowKOf, seqOfRowK, blk]; done)
     | (intro hx; simp_all [rowKOf, seqOfRowK, blk]; done))
+
+def Label.liveSimpleB2 : Label → Bool
+  | .copyIn .. => true
+  | _ => false
+
+theorem LiveInv.mainSimpleB2 {s s' : State} {l : Label} (h : LiveInv s) (hI : Inv s)
+    (hsimple : l.liveSimpleB2 = true) (hs : step s l = some s') : LiveInv s' := by
+  have l10 := h.thr0
+  have l11 := h.kindThr
+  have l12 := h.kindInit
+  have l13 := h.thrSome
+  have l14 := h.canGet
+  have l13a := h.thr5
+  obtain ⟨c1, c2, c3, c4, c5, c6, c6a, c6b, c7, c8, c9, c10⟩ := hI.2
+  cases l <;> simp only [Label.liveSimpleB2, reduceCtorEq] at hsimple <;> simp only [step] at hs
+  all_goals (repeat' split at hs)
+  all_goals first | (cases hs; done) | skip
+  all_goals (cases hs)
+  all_goals (refine h.frame rfl rfl rfl ?_ ?_ ?_ ?_ ?_ ?_ ?_ ?_ <;> first
+    | (intros; simp_all [rowKOf, seqOfRowK, blk]; done)
+    | (intro hx; simp_all [rowKOf, seqOfRowK, blk]; done))
+
+def Label.liveSimpleB3 : Label → Bool
+  | .directStep .. => true
+  | _ => false
+
+theorem LiveInv.mainSimpleB3 {s s' : State} {l : Label} (h : LiveInv s) (hI : Inv s)
+    (hsimple : l.liveSimpleB3 = true) (hs : step s l = some s') : LiveInv s' := by
+  have l10 := h.thr0
+  have l11 := h.kindThr
+  have l12 := h.kindInit
+  have l13 := h.thrSome
+  have l14 := h.canGet
+  have l13a := h.thr5
+  obtain ⟨c1, c2, c3, c4, c5, c6, c6a, c6b, c7, c8, c9, c10⟩ := hI.2
+  cases l <;> simp only [Label.liveSimpleB3, reduceCtorEq] at hsimple <;> simp only [step] at hs
+  all_goals (repeat' split at hs)
+  all_goals first | (cases hs; done) | skip
+  all_goals (cases hs)
+  all_goals (refine h.frame rfl rfl rfl ?_ ?_ ?_ ?_ ?_ ?_ ?_ ?_ <;> first
+    | (intros; simp_all [rowKOf, seqOfRowK, blk]; done)
+    | (intro hx; simp_all [rowKOf, seqOfRowK, blk]; done))
+
+def Label.liveSimpleB4 : Label → Bool
+  | .indexStep _ => true
+  | _ => false
+
+theorem LiveInv.mainSimpleB4 {s s' : State} {l : Label} (h : LiveInv s) (hI : Inv s)
+    (hsimple : l.liveSimpleB4 = true) (hs : step s l = some s') : LiveInv s' := by
+  have l10 := h.thr0
+  have l11 := h.kindThr
+  have l12 := h.kindInit
+  have l13 := h.thrSome
+  have l14 := h.canGet
+  have l13a := h.thr5
+  obtain ⟨c1, c2, c3, c4, c5, c6, c6a, c6b, c7, c8, c9, c10⟩ := hI.2
+  cases l <;> simp only [Label.liveSimpleB4, reduceCtorEq] at hsimple <;> simp only [step] at hs
+  all_goals (repeat' split at hs)
+  all_goals first | (cases hs; done) | skip
+  all_goals (cases hs)
+  all_goals (refine h.frame rfl rfl rfl ?_ ?_ ?_ ?_ ?_ ?_ ?_ ?_ <;> first
+    | (intros; simp_all [rowKOf, seqOfRowK, blk]; done)
+    | (intro hx; simp_all [rowKOf, seqOfRowK, blk]; done))
+
+theorem LiveInv.mainSimple {s s' : State} {l : Label} (h : LiveInv s) (hI : Inv s) (hl : l.worker? = none)
+    (hsimple : l.liveSimple = true) (hs : step s l = some s') : LiveInv s' := by
+  by_cases h1 : l.liveSimpleA1 = true
+  · exact h.mainSimpleA1 hI h1 hs
+  by_cases h2 : l.liveSimpleA2 = true
+  · exact h.mainSimpleA2 hI h2 hs
+  by_cases h3 : l.liveSimpleB1 = true
+  · exact h.mainSimpleB1 hI h3 hs
+  by_cases h4 : l.liveSimpleB2 = true
+  · exact h.mainSimpleB2 hI h4 hs
+  by_cases h5 : l.liveSimpleB3 = true
+  · exact h.mainSimpleB3 hI h5 hs
+  refine h.mainSimpleB4 hI ?_ hs
+  cases l <;> simp_all [Label.liveSimple, Label.liveSimpleA1, Label.liveSimpleA2, Label.liveSimpleB1, Label.liveSimpleB2,
+    Label.liveSimpleB3, Label.liveSimpleB4, Label.worker?]
 
 theorem LiveInv.hdrGot {s s' : State} (h : LiveInv s) (hI : Inv s) (hs : step s .hdrGot = some s') : LiveInv s' := by
   have c6a := hI.2.thrSeq
